@@ -6,6 +6,7 @@
 (*   path  every path, bare and after a qualifier                               *)
 (*   mix   short paths x qualifiers x owner x targets x comments                *)
 (*   pair  two rules in one paragraph (state carried from one rule to the next) *)
+(*   varpath  paths that start with a variable                                   *)
 EXTENDS RuleLex, Json, IOUtils, TLCExt
 
 MaxLen == IF "VERIF_PATH_LEN" \in DOMAIN IOEnv THEN atoi(IOEnv.VERIF_PATH_LEN) ELSE 2
@@ -13,7 +14,7 @@ Elem == [k |-> <<"a">>, sp |-> <<"s">>, cs |-> <<"c", "s">>, cm |-> <<"c", "a">>
          alt |-> <<"o{", "a", "c", "a", "c}">>, alte |-> <<"o{", "c", "a", "c}">>,
          alts |-> <<"o{", "a", "c", "s", "a", "c}">>, nest |-> <<"o{", "a", "c", "o{", "a", "c", "a", "c}", "c}">>,
          eq |-> <<"e">>, par |-> <<"o(", "a", "c)">>, cls |-> <<"o[", "a", "c]">>, hash |-> <<"h">>,
-         var |-> <<"at", "o{", "a", "c}">>, esc |-> <<"bs", "o{">>, escc |-> <<"bs", "c}">>, escq |-> <<"bs", "q">>, u |-> <<"u">>, st |-> <<"st">>, sl |-> <<"sl">>]
+         var |-> <<"at", "o{", "a", "c}">>, esc |-> <<"bs", "o{">>, escc |-> <<"bs", "c}">>, escq |-> <<"bs", "q">>, escs |-> <<"bs", "s">>, bsbs |-> <<"bs", "bs">>, u |-> <<"u">>, st |-> <<"st">>, sl |-> <<"sl">>]
 E == DOMAIN Elem
 PathOf(es) == <<"sl">> \o Flat([i \in DOMAIN es |-> Elem[es[i]]])
 ElemSeqs(n) == UNION {[1..m -> E] : m \in 0..n}
@@ -22,8 +23,13 @@ Targets == {<<>>, <<"tgt">>, <<"sl", "a", "s", "a">>, <<"sl", "a", "e", "o(", "a
 Comments == {<<>>, <<"s", "a">>, <<"s", "a", "c", "s", "a">>, <<"s", "q", "a">>, <<"s", "o{", "a">>, <<"s", "h", "a">>, <<"a">>}
 Rule(q, o, p, t, c) == [qual |-> q, owner |-> o, path |-> p, target |-> t, comment |-> c]
 
+\* a path that starts with a variable (the tokenizer has a variable-definition mode keyed on a leading "@{")
+VarPathOf(es) == Elem["var"] \o <<"sl">> \o Flat([i \in DOMAIN es |-> Elem[es[i]]])
+
 VARIABLES mode, rs
-Init == \/ /\ mode = "path"
+Init == \/ /\ mode = "varpath"
+           /\ \E es \in ElemSeqs(IF MaxLen > 2 THEN 2 ELSE MaxLen), q \in {<<>>, <<"audit">>} : rs = <<Rule(q, FALSE, VarPathOf(es), <<>>, <<>>)>>
+        \/ /\ mode = "path"
            /\ \E es \in ElemSeqs(MaxLen), q \in {<<>>, <<"audit">>} : rs = <<Rule(q, FALSE, PathOf(es), <<>>, <<>>)>>
         \/ /\ mode = "mix"
            /\ \E es \in ElemSeqs(1), q \in Quals, o \in BOOLEAN, t \in Targets, c \in Comments : rs = <<Rule(q, o, PathOf(es), t, c)>>
